@@ -350,6 +350,7 @@ func (p *ProjectRunner) getDoneOrRunningProcess(name string) *Process {
 	if doneProc := p.getDoneProcess(name); doneProc != nil {
 		return doneProc
 	}
+	verifPointR(p, "lookup_mid", name)
 	return p.getRunningProcess(name)
 }
 
